@@ -38,5 +38,4 @@ for n in "${names[@]}"; do
   echo "| $n | $prop | $suite | $verdict | $key |" >> $tmp
   echo "$n: $verdict"
 done
-mv $tmp $out
-cat $out
+if [ $# -eq 0 ]; then mv $tmp $out; cat $out; else cat $tmp; rm -f $tmp; fi
